@@ -7,7 +7,7 @@ from .common import opaque_obj
 
 SPECIES_METHODS = ('get_q', 'get_CvoR', 'get_CpoR', 'get_UoRT', 'get_HoRT', 'get_SoR', 'get_FoRT', 'get_GoRT',
                    'get_EoRT')
-SPECIES_PARAMS = ('T', 'P', 'include_ZPE', 'ignore_q_elec')
+SPECIES_PARAMS = ('include_ZPE', 'ignore_q_elec', 'T', 'P')      # the order is the species' own business
 
 
 def species(I, name, phase='G', cat_site=None):
